@@ -869,9 +869,12 @@ def run_batch(prop, tier, rng, cases, n_corpus):
     pairs = []
     if prop == 'C07':
         cuts, cases2 = [], []
-        for c in cases:
+        for c, r_ in zip(cases, reals):
             d0, d1 = c['start'] // 86400, c['end'] // 86400
             cut = rng.randrange(d0 - 2, d1 + 1)
+            fill_days = sorted(set(t['time'] // 86400 for t in (r_.get('txns') or [])))
+            if fill_days and rng.random() < 0.3:
+                cut = rng.choice(fill_days)      # the future starts right after a day on which orders were filled
             sp = [d for d in c.get('spike_days', []) if d0 - 2 <= d <= d1]
             if sp and rng.random() < 0.7:
                 cut = rng.choice(sp)          # the later data start right after a one-bar jump
